@@ -149,7 +149,6 @@ func main() {
 			"out-of-place BGV Finalize/Transform: the caller gives the output ciphertext the input's metadata (the method documents no metadata handling); in-place use needs no such step",
 			"the smudging lower bound (pooled sigma >= 1/2 requested sigma over >= 512 coefficients) is the statistic prescribed for this property; its failure probability under the declared distribution is < 2^-100",
 			"shares containing rlwe.MetaData (PublicKeySwitchShare, RefreshShare) are not sent over fragmenting transports: MetaData.ReadFrom's single Read is a listed C08 finding",
-			"conjugate-invariant CKKS: a single slot (LogSlots=0) is left out (the encoder itself does not round-trip it)",
 			"protocol objects are used sequentially (sharing of scratch memory between ShallowCopies is C10's subject)",
 			"BGV encoder / CKKS encoder are trusted for message <-> plaintext polynomial (C07); decryption itself is the harness's own phase computation",
 		},
